@@ -69,6 +69,28 @@ func mkWires(rd *drbg.Reader, n int) []ot.Wire {
 	for i := range w {
 		w[i].L0, _ = ot.NewLabel(rd)
 		w[i].L1, _ = ot.NewLabel(rd)
+		// special label values at fixed positions: leading zero bytes, all zero, all ones, equal labels
+		var ld ot.LabelData
+		switch i % 11 {
+		case 3:
+			b := w[i].L0.Bytes(&ld)
+			b[0], b[1] = 0, 0
+			w[i].L0.SetBytes(b)
+		case 5:
+			w[i].L1 = ot.Label{}
+		case 7:
+			for j := range ld {
+				ld[j] = 0xff
+			}
+			w[i].L0.SetData(&ld)
+		case 9:
+			b := w[i].L1.Bytes(&ld)
+			b[15] = 0
+			b[0] = 0
+			w[i].L1.SetBytes(b)
+		case 10:
+			w[i].L1 = w[i].L0
+		}
 	}
 	return w
 }
